@@ -6,7 +6,7 @@
    read from accounts.go / passwd.go / group.go / paths.go on this run
    (Generated/C13Consts.v); [maxl] is the filesystems' symlink nesting limit. *)
 From Apko Require Import Base.Prelude Model.C13Fs Model.Accounts Model.PathMut Model.C13Build Generated.C13Consts
-  Spec.AccountsSpec Spec.PathMutSpec Proofs.AccountsProofs Proofs.AccountsCodec Proofs.PathMutResolve Proofs.AccountsHomes Proofs.PathMutProofs Proofs.PathMutFrame Proofs.PathMutFuel Proofs.PathMutBuild.
+  Spec.AccountsSpec Spec.PathMutSpec Proofs.AccountsProofs Proofs.AccountsCodec Proofs.PathMutResolve Proofs.AccountsHomes Proofs.PathMutProofs Proofs.PathMutFrame Proofs.PathMutFuel Proofs.PathMutKinds Proofs.PathMutBuild.
 Open Scope string_scope. Open Scope list_scope.
 
 (* the constants in the source are the documented defaults: /bin/sh, /home/,
@@ -160,23 +160,70 @@ Theorem c13_homes_trailing_slash_fixed :
 Proof. exact home_trailing_slash_fixed. Qed.
 Print Assumptions c13_homes_trailing_slash_fixed.
 
-(* c13_mutations, for the mutation applied last.  For every tree and sequence:
-   if mutatePaths succeeds on ms ++ [m], the node that m's path RESOLVES to in the
-   final tree carries m's declared permission value and owner — whatever the
-   type (each supported mutator is followed by Chmod+Chown of the path).
-   Holds for every permission value; the layer keeps it only below 0o1000
-   (c13_layer_mode).  For a symlink mutation the resolved node is the link's
-   TARGET (c13_symlink_owner_refuted, finding C13-F2).
-   MISSING from the full statement: kind (directory / regular file / link)
-   of the resolved node, the recursive case, and preservation for an EARLIER
-   mutation whose node no later mutation touches; those are checked per prefix
-   of every generated sequence by realised_tags (c13_validators_decide). *)
-Theorem c13_mutations_last_partial : forall maxl f ms m f',
+(* c13_mutations_last: mode and owner, for the mutation applied last.  For every
+   tree and sequence: if mutatePaths succeeds on ms ++ [m], the node that m's path
+   RESOLVES to in the final tree carries m's declared permission value and owner
+   — whatever the type (each supported mutator is followed by Chmod+Chown of the
+   path).  Holds for every permission value; the layer keeps it only below
+   0o1000 (c13_layer_mode).  For a symlink mutation the resolved node is the
+   link's TARGET (c13_symlink_owner_refuted, finding C13-F2).  The kind of what
+   sits at the path is c13_mutations_kinds, the recursive case
+   c13_mutations_recursive, what happens to everything else c13_mutations_frame. *)
+Theorem c13_mutations_last : forall maxl f ms m f',
   mutate_paths maxl f (ms ++ [m]) = FOk f' ->
   exists n, stat maxl f' (path_of (m_path m)) = FOk n /\
             nperm n = m_perm m /\ nuid n = m_uid m /\ ngid n = m_gid m.
 Proof. exact last_mutation_post. Qed.
-Print Assumptions c13_mutations_last_partial.
+Print Assumptions c13_mutations_last.
+
+(* c13_mutations_kinds.  After a successful mutation of each type (any tree):
+   - directory: the path resolves to a DIRECTORY node carrying the declared mode
+     and owner (the tree's root being a directory, as in every filesystem the
+     code builds);
+   - symlink: the entry stored under the path itself is a symbolic link whose
+     target is the declared source;
+   - hardlink: the entry stored under the path and the declared source resolve to
+     ONE AND THE SAME node (so they share mode, owner and content for ever);
+   - empty-file: an entry that is neither a directory nor a link was opened and
+     its own buffer is empty; a reader then sees the backing package entry if
+     there is one (finding C13-F4), nothing otherwise.
+   Not proved: that the empty-file path resolves to that very node (openFile and
+   getNode resolve a final symbolic link by different rules), nor that it is a
+   regular file rather than a device node. *)
+Theorem c13_mutations_kinds : forall maxl f m f',
+  mutate_one maxl f m = FOk f' ->
+  (m_type m = "directory" -> (exists rn, get f root_ino = Some rn /\ is_dir rn = true) ->
+     exists t n, gn maxl f' (path_of (m_path m)) = FOk t /\ get f' t = Some n /\ nkind n = KDir /\
+                 nperm n = m_perm m /\ nuid n = m_uid m /\ ngid n = m_gid m) /\
+  (m_type m = "symlink" ->
+     exists n, direct maxl f' (path_of (m_path m)) = FOk n /\ nkind n = KSym /\ ntarget n = m_source m) /\
+  (m_type m = "hardlink" ->
+     exists t, direct_idx maxl f' (path_of (m_path m)) = FOk t /\ gn maxl f' (path_of (m_source m)) = FOk t).
+Proof.
+  intros maxl f m f' H. split; [intros Ht Hr; eapply directory_kind; eauto|].
+  split; [intro Ht; eapply symlink_kind; eauto | intro Ht; eapply hardlink_same_node; eauto].
+Qed.
+Print Assumptions c13_mutations_kinds.
+
+Theorem c13_empty_file : forall maxl f m f1,
+  mutate_empty_file maxl f m = FOk f1 ->
+  exists o n, get f1 o = Some n /\ ndata n = "" /\ edata n = nback n /\ nkind n <> KDir /\ nkind n <> KSym.
+Proof. exact empty_file_emptied. Qed.
+Print Assumptions c13_empty_file.
+
+(* c13_mutations_recursive.  A recursive directory mutation: with t the node the
+   path resolves to once MkdirAll has run, EVERY node below t — reached through
+   directory entries that are not symbolic links, at any depth — ends with the
+   declared mode and owner ([below], Proofs/PathMutKinds.v).  (A symbolic-link
+   entry is not descended; Chmod/Chown go through it to its target, which
+   c13_mutations_frame accounts for: whatever else changes gets the declared
+   values too.) *)
+Theorem c13_mutations_recursive : forall maxl f m f',
+  m_type m = "directory" -> m_recursive m = true -> mutate_one maxl f m = FOk f' ->
+  exists f0 t, mkdirall maxl f (path_of (m_path m)) (m_perm m) = FOk f0 /\ gn maxl f0 (path_of (m_path m)) = FOk t /\
+    forall j, below f0 t j -> has_attrs_at (m_perm m) (m_uid m) (m_gid m) f' j.
+Proof. exact directory_recursive_covers. Qed.
+Print Assumptions c13_mutations_recursive.
 
 (* c13_mutations_frame.  What a mutation, and a whole declared sequence, may
    change in the nodes that existed before it — for every tree (symbolic links,
@@ -320,3 +367,18 @@ Example c13_accounts_example :
     match gnode 40 f' etc_passwd with FOk n => Some (ndata n) | _ => None end = Some (write_users [mkUE "app" "x" 77 77 "pkg" "/dev/null" "/bin/sh";
                                           mkUE "app" "x" 1000 1000 "Account created by apko" "/home/app" "/bin/sh"]).
 Proof. eexists. split; vm_compute; reflexivity. Qed.
+
+(* non-vacuity of c13_pipeline_order / c13_mutations_frame / c13_homes_sequence: the
+   configuration of seeded change C13-3 on the model — user app (home not
+   shipped), a declared directory BELOW the home: the home is the accounts
+   step's 0700 directory of app, the declared directory is as declared *)
+Example c13_pipeline_example :
+  exists f' ra, build_image 40 tree_with_etc [mkCU "app" 1000 None "" ""] [mkCG "app" 1000 []] ""
+                  [mkMut "directory" "/home/app/.cache" "" 493 1000 1000 false] = FOk (f', ra) /\
+    option_map sinfo_of (match stat 40 f' (path_of "/home/app") with FOk n => Some n | _ => None end)
+      = Some (mkSinfo KDir spec_home_mode 1000 1000) /\
+    option_map sinfo_of (match stat 40 f' (path_of "/home/app/.cache") with FOk n => Some n | _ => None end)
+      = Some (mkSinfo KDir 493 1000 1000) /\
+    option_map sinfo_of (match stat 40 f' (path_of apko_config_path) with FOk n => Some n | _ => None end)
+      = Some (mkSinfo KFile apko_config_perm 0 0).
+Proof. eexists. eexists. split; [vm_compute; reflexivity|]. repeat split; vm_compute; reflexivity. Qed.
